@@ -623,4 +623,73 @@ Proof.
   rewrite (edge_items_weight _ _ Hw _ _ E0). exact Hq.
 Qed.
 
+(* ---------------- hard module with overlapping rectangles ---------------- *)
+Definition overlapping_pair (aeps : Qc) (rs : list mrect) : Prop :=
+  exists l1 r1 l2 r2 l3, rs = (l1 ++ r1 :: l2 ++ r2 :: l3)%list /\
+                         overlap aeps (to_rect r1) (to_rect r2) = true.
+
+Lemma no_overlap_with_false aeps r l2 r2 l3 :
+  overlap aeps (to_rect r) (to_rect r2) = true -> no_overlap_with aeps r (l2 ++ r2 :: l3) = false.
+Proof.
+  intros H. induction l2 as [|x l2 IH]; cbn.
+  - rewrite H. reflexivity.
+  - rewrite IH. apply andb_false_r.
+Qed.
+
+Lemma no_overlaps_false aeps rs : overlapping_pair aeps rs -> no_overlaps aeps rs = false.
+Proof.
+  intros (l1 & r1 & l2 & r2 & l3 & -> & H). induction l1 as [|x l1 IH]; cbn.
+  - rewrite no_overlap_with_false by exact H. reflexivity.
+  - rewrite IH. apply andb_false_r.
+Qed.
+
+Lemma cr_squares_keeps ms : forall ms1 m,
+  cr_squares sqrt_o ms = Ok ms1 -> In m ms -> m_rects m <> [] -> In m ms1.
+Proof.
+  induction ms as [|x ms IH]; intros ms1 m H Hin Hr; [destruct Hin|].
+  cbn [cr_squares] in H. inv_bind H. inv_bind H. inversion H; subst; clear H.
+  destruct Hin as [->|Hin]; [left|right; eauto].
+  unfold cr_square in E. inv_bind E.
+  destruct (m_rects m); [congruence|]. rewrite andb_false_r in E. inversion E. reflexivity.
+Qed.
+
+Lemma cr_overlaps_rejects aeps ms m :
+  In m ms -> m_hard m = true -> m_terminal m = false -> no_overlaps aeps (m_rects m) = false ->
+  rejects (cr_overlaps aeps ms).
+Proof.
+  induction ms as [|x ms IH]; intros Hin Hh Ht Hn; [destruct Hin|].
+  cbn [cr_overlaps]. destruct Hin as [->|Hin].
+  - apply rejects_bind. unfold cr_overlap. rewrite Hh, Ht, Hn. cbn. eauto.
+  - rbind. eauto.
+Qed.
+
+Definition area_eps (e : option (Qc * Qc)) : Qc := match e with Some (_, y) => y | None => 0 end.
+
+(* the document parses (everything else is in order), one of its modules is
+   hard, not a terminal, and two of its rectangles overlap by more than the
+   area epsilon in force *)
+Theorem reject_hard_overlap e t ms es m aeps :
+  parse_netlist t = Ok (ms, es) -> In m ms ->
+  m_hard m = true -> m_terminal m = false ->
+  (forall ms1, cr_squares sqrt_o ms = Ok ms1 -> area_eps (epsilon_after sqrt_o e ms1) = aeps) ->
+  overlapping_pair aeps (m_rects m) ->
+  rejects (read_netlist sqrt_o e t).
+Proof.
+  intros Hp Hin Hh Ht He Hov. unfold read_netlist. rewrite Hp. cbn [bind fst snd].
+  apply rejects_bind. unfold create_rectangles. rbind. apply rejects_bind.
+  specialize (He _ H). unfold area_eps in He.
+  assert (Hne : m_rects m <> []).
+  { destruct Hov as (l1 & r1 & l2 & r2 & l3 & -> & _). destruct l1; discriminate. }
+  pose proof (cr_squares_keeps _ _ _ H Hin Hne) as Hin1.
+  replace (match epsilon_after sqrt_o e a with Some (_, y) => y | None => 0 end) with aeps.
+  eapply cr_overlaps_rejects; eauto. apply no_overlaps_false. exact Hov.
+Qed.
+
+Corollary reject_hard_overlap_eps eps aeps t ms es m :
+  parse_netlist t = Ok (ms, es) -> In m ms ->
+  m_hard m = true -> m_terminal m = false ->
+  overlapping_pair aeps (m_rects m) ->
+  rejects (read_netlist sqrt_o (Some (eps, aeps)) t).
+Proof. intros. eapply reject_hard_overlap; eauto. intros; reflexivity. Qed.
+
 End Facts.
